@@ -428,6 +428,9 @@ func c04reopen(tr *lib.Trace, pdb **db19.Database, path string, hist *[]string,
 	*pdb = db2
 	s2, v2, d2, i2 := c04snapshot(db2)
 	tr.Count("reopen.compared")
+	if c04prefix == "c04" {
+		tr.Q("snapshot "+fmt.Sprint(len(s1)), fmt.Sprint(len(s2))) // not replayed (C04 has no driver); counts as an evaluation
+	}
 	if s1 != s2 {
 		before, after := c04tableNames(s1), c04tableNames(s2)
 		for tb := range after {
